@@ -289,6 +289,16 @@ class Check(Property):
                 want = proj.unit_by_key[s]["name"] if s in proj.unit_by_key else None
                 if want is not None and got != want:
                     v.append(f"{pre}: a defined spelling of {want} resolves to {got or err}")
+                elif want is not None:
+                    # the symbol reported for a defined spelling is the one of the definition (the name when none is given)
+                    rec = proj.unit_by_key[s]
+                    wsym = rec["symbol"] or rec["name"]
+                    try:
+                        gsym = u.get_symbol(s)
+                    except Exception as exc:  # noqa: BLE001
+                        gsym = type(exc).__name__
+                    if gsym != wsym:
+                        v.append(f"{pre}: get_symbol gives {gsym!r}, the definition of {want} says {wsym!r}")
                 return v
             cands = proj.candidates(s)
             cands = [(p, n) for p, n in cands]
